@@ -516,6 +516,12 @@ class Checker:
             echo = echo_of(res, self.labels, self.enums) if spec[0] == "run" else {}
             if spec[0] == "run" and echo:
                 self.nontrivial.add(case_id(case))
+            if spec[0] == "run" and not echo:
+                # the echo is printed by the library before it validates anything: no echo = the tool gave up
+                # (or went on) without handing the documented command line to the library
+                ctx.violation(dict(case, argv=argv), "documented: this command line is valid and reaches the library; "
+                              "the tool returned %d without calling it: %s" % (res["rc"], (res["err"] + res["out"])[-200:]))
+                continue
             obs_req.append("O %d %s %s" % (res["rc"], encode_echo(echo, spec[1] if spec[0] == "run" else {},
                                                                    self.enums), encs[i]))
             obs_idx.append(i)
